@@ -240,6 +240,10 @@ Setters ==
    Op("or", Q(pc), Group(Asg(TVar("x"), Lit(Str("o"))))),
    Op("err", Call("to_int", <<Q(pa)>>), Group(Asg(TVar("x"), Lit(Bool(TRUE))))),
    Asg2(TVar("x"), TVar("y"), Call("to_int", <<Q(pa)>>)),
+   \* infallible assignment of a fallible collection with required members: on failure `ok` receives the empty collection
+   Asg2(TVar("x"), TVar("y"), ArrN(<<Call("to_int", <<Q(pa)>>), Lit(IntV(1))>>)),
+   Asg2(TVar("x"), TVar("y"), ObjN(<<"n">>, <<Call("to_int", <<Q(pa)>>)>>)),
+   Asg2(TExt(pa), TVar("y"), ObjN(<<"n">>, <<Call("to_int", <<Q(<<F("s")>>)>>)>>)),
    Asg(TVar("x"), Op("merge", ObjN(<<"a">>, <<Lit(IntV(1))>>), ObjN(<<"b">>, <<Q(pa)>>)))}
 Users ==
   {Asg(TVar("z"), Op("add", Var("x"), Lit(IntV(1)))), Asg(TVar("z"), Call("upcase", <<Var("x")>>)),
@@ -328,7 +332,21 @@ Tails34 == {<<Lit(Str("none"))>>, <<Asg(TExt(pz), Lit(Bool(TRUE))), Lit(Str("non
             <<Iter("map_values", ObjN(<<"p">>, <<Lit(IntV(1))>>), <<"v">>, <<Call("to_string", <<Var("v")>>)>>)>>,
             <<Asg(TExt(pz), Lit(IntV(1))), Block(<<Lit(IntV(3))>>)>>}
 UsedIfs == {Asg(TExt(pc), IfElse(<<Exists(TExt(pa))>>, t, e)) : t \in Tails34, e \in Tails34}
-Progs_C34 == {Prelude \o <<d>> \o Observe : d \in Discards \cup UsedIfs}
+\* statements whose value IS used (written to the event) and is a composite mixing calls and literals: no part of it may be
+\* reported unused, wherever the statement stands (root, not last in an if body / bare block / closure body)
+DownA == Call("downcase", <<Lit(Str("A"))>>)
+UsedVals == {ArrN(<<DownA, Lit(Str("static"))>>), ArrN(<<Lit(Str("static")), DownA>>), ArrN(<<DownA, DownA>>),
+             ArrN(<<Op("err", Call("to_int", <<Q(pa)>>), Lit(IntV(0))), ObjN(<<"kind">>, <<Lit(Str("item"))>>)>>),
+             ArrN(<<DownA, Call("to_string", <<Lit(IntV(1))>>), Lit(IntV(7))>>),
+             ObjN(<<"a", "b">>, <<DownA, Lit(IntV(7))>>), ObjN(<<"a", "b">>, <<Lit(IntV(7)), DownA>>),
+             Call("length", <<ArrN(<<DownA, Lit(IntV(7))>>)>>),
+             Op("add", DownA, Lit(Str("s"))),
+             ArrN(<<Iter("map_values", ObjN(<<"p">>, <<Lit(IntV(1))>>), <<"v">>, <<Var("v")>>), Call("upcase", <<Lit(Str("x"))>>)>>)}
+UsedPlaced == {Asg(TExt(pc), v) : v \in UsedVals}
+              \cup {If(<<Exists(TExt(pa))>>, <<Asg(TExt(pc), v), Asg(TExt(pz), Lit(Bool(TRUE)))>>) : v \in UsedVals}
+              \cup {Block(<<Asg(TExt(pc), v), Lit(IntV(0))>>) : v \in UsedVals}
+              \cup {Iter("for_each", ObjN(<<"p">>, <<Lit(IntV(1))>>), <<"k", "v">>, <<Asg(TExt(pc), v), Asg(TExt(pz), Var("v"))>>) : v \in UsedVals}
+Progs_C34 == {Prelude \o <<d>> \o Observe : d \in Discards \cup UsedIfs \cup UsedPlaced}
              \cup {Prelude \o <<Block(<<d, Lit(IntV(0))>>)>> \o Observe : d \in Discards}
              \cup (IF Thorough THEN {Prelude \o <<d1, d2>> \o Observe : d1 \in Discards, d2 \in Discards} ELSE {})
 
